@@ -167,6 +167,14 @@ class Chain(Unit):
             if fk == 3:
                 raise final_exc
         final_handler = [None, False, final, final][fk]
+        if fk >= 2 and E.fork(2, 'final-handler-is-a-falsy-callable'):
+            # any callable is a final handler - also an instance that happens to be falsy (an empty list-like error log with
+            # __call__): "a final handler is configured" means `is not None and is not False`, not truthiness
+            # (seeded change C14-r14: `if final_handler:`)
+            class FalsyCallable(list):
+                def __call__(self_, exc, exc_info):
+                    return final(exc, exc_info)
+            final_handler = FalsyCallable()
         # reactor hook: returns True (suppress) / False / raises
         rk = E.fork(3, 'reactor-hook')
         hook_exc = AbsExc(E.new_int('hook-raised'))
@@ -361,6 +369,11 @@ def replay_chain(rng):
         if fk == 3:
             raise fexc
     conn.handle_exception = [None, False, final, final][fk]
+    if fk >= 2 and rng.random() < 0.3:
+        class FalsyCallable(list):           # a callable final handler that is falsy
+            def __call__(self_, exc, exc_info):
+                return final(exc, exc_info)
+        conn.handle_exception = FalsyCallable()
     conn.reactor = types.SimpleNamespace(handle_exception=lambda e, i: False)
     interrupted = rng.random() < 0.5
     conn.networking_thread = types.SimpleNamespace(interrupt=interrupted)
